@@ -217,6 +217,9 @@ uint32_t Ruleset::runOnceImpl(OomdContext& context) {
   if (active_action_chain_state_ != std::nullopt) {
     // resume the action context from when the action chain was fired
     context.setActionContext(active_action_chain_state_->action_context);
+    // no detector group may be firing any more; the resumed action still
+    // needs its ruleset to apply its own post_action_delay
+    context.setInvokingRuleset(this);
 
     // clear active_async_plugin_ and save it to a temp
     BasePlugin& target = active_action_chain_state_->active_plugin;
